@@ -297,6 +297,34 @@ def _oracle(w, drv, sc, st, probe, stats, out):
         if not per_sock or min(per_sock.values()) < 3:
             out.add("C17.goodbye-missing", f"{recs.name}: registered when close was called at {st['t_call'] - t0:.6f} but "
                     f"complete goodbyes seen per socket: {per_sock} (expected 3)", n=min(per_sock.values()) if per_sock else 0)
+    # whatever the instance advertised with a positive TTL has been withdrawn by the time close returns: the last
+    # transmission of each of its records on every socket is a goodbye ("Registered services have been withdrawn with
+    # goodbyes before the sockets close", whatever was in progress - in particular a registration that finished
+    # probing while the shutdown's own goodbyes were going out)
+    pos, gb = {}, {}
+    for tx in vtx:
+        if tx.t > t_ret or tx.msg is None or not tx.msg.is_response:
+            continue
+        for r in tx.msg.records():
+            if r.type == wire.T_NSEC:
+                continue
+            if r.ttl > 0:
+                pos[r.ident()] = (tx.t, tx.sock, tx.multicast, r)
+                if tx.multicast:
+                    gb.setdefault(r.ident(), {})[tx.sock] = None
+            elif tx.multicast:
+                gb.setdefault(r.ident(), {})[tx.sock] = tx.t
+    for ident, (t, sock, mc, r) in sorted(pos.items(), key=lambda kv: (kv[1][0], repr(kv[0]))):
+        socks = gb.get(ident, {})
+        # every socket that multicast the record must have multicast its goodbye last, and not before the last
+        # positive copy of any kind (a unicast reply included)
+        bad = [s_ for s_, tg in sorted(socks.items()) if tg is None or tg < t]
+        if bad or not socks:
+            out.add("C17.advertised-not-withdrawn", f"{r!r} was last sent with TTL {r.ttl} at {t - t0:.6f} on {sock} "
+                    f"({'multicast' if mc else 'unicast'}); close was called at {st['t_call'] - t0:.6f} and returned at "
+                    f"{t_ret - t0:.6f}; no later goodbye on {bad or 'any socket'}", after_call=t >= st["t_call"],
+                    rtype=r.type)
+            break
     if st.get("exc2"):
         out.add("C17.second-close-raised", f"closing again raised {st['exc2']}")
     if st["t_ret2"] is None:
